@@ -127,7 +127,7 @@ def work_dynamic(chunk, st):
         gex = P.GexPolicy(sorted(set(dh.values()))[:1], P.STRICT) if dh else None
         kw = dict(kex=p['kex'], key=keys, enc=p['ciphers'], mac=p['macs'], banner=b'SSH-2.0-OpenSSH_9.6')
         variants = [('required-only', kw, hk)]
-        opt = [k for k in (p.get('optional_host_keys') or []) if not k.startswith('sk-')]
+        opt = list(p.get('optional_host_keys') or [])       # incl. security-key types: served with well-formed blobs should the tool ever ask for them
         if opt and p['server_policy']:
             keys2 = keys + opt
             hk2 = dict(hk)
@@ -137,6 +137,10 @@ def work_dynamic(chunk, st):
                     hk2[k] = wire.ed25519_cert_tree(wire.ed25519_blob_tree(b'\x44' * 32))
                 elif 'rsa' in k and '-cert-' in k:
                     hk2[k] = wire.rsa_cert_tree(sz.get('hostkey_size') or 4096, wire.rsa_blob_tree(sz.get('ca_key_size') or 4096))
+                elif k == 'sk-ssh-ed25519@openssh.com':
+                    hk2[k] = wire.sk_ed25519_blob_tree()
+                elif k == 'sk-ssh-ed25519-cert-v01@openssh.com':
+                    hk2[k] = wire.sk_ed25519_cert_tree(wire.ed25519_blob_tree(b'\x44' * 32))
             variants.append(('with-optional-host-keys', dict(kw, key=keys2), hk2))
         for vname, kw, hk in variants:
           for fmt in ('text', 'json'):
